@@ -118,7 +118,12 @@ impl<NumericTypes: EvalexprNumericTypes<Int = Self>> EvalexprInt<NumericTypes> f
     }
 
     fn abs(&self) -> EvalexprResult<Self, NumericTypes> {
-        Ok((*self).abs())
+        if *self < 0 {
+            // The absolute value of `i64::MIN` is not representable, which is reported as a negation error.
+            EvalexprInt::<NumericTypes>::checked_neg(self)
+        } else {
+            Ok(*self)
+        }
     }
 
     fn bitand(&self, rhs: &Self) -> Self {
